@@ -58,7 +58,14 @@ def parseCase (f : List String) : Option Case :=
     let inOff ← i.toInt?
     let ann ← if kind == "full" then a.toInt? else some 0
     let rdb ← rdb.toNat?
-    let st ← (steps.splitOn ",").mapM parseStep
+    -- `D<k>` / `X<k>`: as `d` / `x`, the source then writes its `+CONTINUE` line and the next k stream bytes in ONE segment.
+    -- For the model that is `d` (`x`) followed by `s<k>`: what the source sends does not depend on how it is cut into segments.
+    let expand (t : String) : Option (List Step) :=
+      match t.toList with
+      | 'D' :: r => (String.ofList r).toNat?.map fun k => [.d, .send k]
+      | 'X' :: r => (String.ofList r).toNat?.map fun k => [.x, .send k]
+      | _ => (parseStep t).map fun x => [x]
+    let st ← ((steps.splitOn ",").mapM expand).map List.flatten
     if kind == "inc" || kind == "cont" || kind == "full" || kind == "tags" then
       pure { kind := kind, inOff := inOff, ann := ann, runid := rid, rdb := rdb, steps := st }
     else none
